@@ -203,6 +203,29 @@ def record_case(case):
                 "base": base,
             }
             rec["dual3"] = hux.table(nd.uxgrid.face_node_connectivity)[0]
+            if case.get("variant", 0) % 2 == 0:
+                stage = "UxDataset (construction)"
+                try:
+                    ds = ux.UxDataset(uxgrid=g)
+                    ds["a"] = ux.UxDataArray(np.arange(nf, dtype=np.int64) + base, dims=["n_face"], uxgrid=g)
+                    ds["b"] = ux.UxDataArray(
+                        (np.arange(2 * nn, dtype=np.int64) + base).reshape(2, nn), dims=["time", "n_node"], uxgrid=g
+                    )
+                except Exception as e:  # building a dataset is not C18's subject (C10): recorded, not judged
+                    rec["dataset_unavailable"] = "%s: %s" % (type(e).__name__, str(e)[:120])
+                    ds = None
+                if ds is not None:
+                    stage = "UxDataset.get_dual"
+                    dd = ds.get_dual()
+                    va, vb = np.asarray(dd["a"].values), np.asarray(dd["b"].values)
+                    rec["dsdata"] = {
+                        "adims": [str(x) for x in dd["a"].dims],
+                        "avals": [int(x) for x in va.ravel()],
+                        "bdims": [str(x) for x in dd["b"].dims],
+                        "bvals": [[int(x) for x in row] for row in vb] if vb.ndim == 2 else [[int(x) for x in vb.ravel()]],
+                        "base": base,
+                    }
+                    rec["dual4"] = hux.table(dd.uxgrid.face_node_connectivity)[0]
     except Exception as e:  # noqa: the property promises a value; the exception is part of the record
         rec["error"] = "%s: %s: %s" % (stage, type(e).__name__, str(e)[:200])
     return rec
